@@ -449,20 +449,15 @@ def LS.scanShortString (l : LS) (conv : List (Bytes × Nat)) : LS × Bytes :=
         | some n => ({ l with chunk := ch.drop s.i, cur := l.cur + n + 2, off := l.off + s.i }, str)
         | none => ({ l with chunk := ch.drop s.i, cur := l.cur + runeCount raw + 2, convMissing := true, off := l.off + s.i }, str)
 
-/-- `scanIllegalToken`: (line break seen, token text) -/
+/-- `scanIllegalToken`: (line break seen, token text).  The token runs up to the next space / CR / LF, which
+    is left to `skipWhiteSpaces` (it used to be consumed here without being counted). -/
 def LS.scanIllegal (l : LS) (conv : List (Bytes × Nat)) : LS × Bool × Bytes :=
   let ch := l.chunk
-  let body := ch.takeWhile fun c => !(c == 32 || c == 13 || c == 10)
-  -- i = bytes consumed: the body and, if present, the terminating space / CR / LF
-  let term := ch[body.length]?
-  let i := if term.isSome then body.length + 1 else body.length
-  let lineFlag := term == some 10
-  -- Go: str = chunk[0 : i-1]: when no terminator was found the last byte of the body is dropped too
-  let str := ch.take (i - 1)
-  let l := if i == 0 then { l with panic := true } else l
+  let str := ch.takeWhile fun c => !(c == 32 || c == 13 || c == 10)
+  let i := str.length
   match convCount conv str with
-  | some n => ({ l with chunk := ch.drop i, cur := l.cur + n, off := l.off + i }, lineFlag, str)
-  | none => ({ l with chunk := ch.drop i, cur := l.cur + runeCount str, convMissing := true, off := l.off + i }, lineFlag, str)
+  | some n => ({ l with chunk := ch.drop i, cur := l.cur + n, off := l.off + i }, false, str)
+  | none => ({ l with chunk := ch.drop i, cur := l.cur + runeCount str, convMissing := true, off := l.off + i }, false, str)
 
 /-- fixed-spelling tokens -/
 def LS.emit (l : LS) (n : Nat) (k : TK) (s : String) : LS := (l.next n).setNow k (bytesOfString s)
